@@ -629,4 +629,57 @@ def applyStmt (m : RMatrix) (s : Stmt) : RMatrix :=
   | some it => applyItem m it
   | none => m
 
+/-! ## comments: one statement, one or several lines -/
+
+/-- `"CM_ " + class + " " + ident + ' "'` with the identifiers `"%d "` (frame), `"%d " + name` (signal), the name (ECU) -/
+def renderCmHead : CmHead → Str
+  | .sg id name => "CM_ SG_ ".toList ++ natDigits id ++ ' ' :: name ++ " \"".toList
+  | .bo id => "CM_ BO_ ".toList ++ natDigits id ++ "  \"".toList
+  | .bu name => "CM_ BU_ ".toList ++ name ++ " \"".toList
+
+/-- the lines of a comment statement -/
+def cmLines (h : CmHead) (text : Str) : List Str :=
+  match renderCommentBody text with
+  | first :: rest => (renderCmHead h ++ first) :: rest
+  | [] => []
+
+/-- a statement of a file: one of the one-line kinds, or a comment -/
+inductive FileStmt
+  | one (s : Stmt)
+  | cm (h : CmHead) (text : Str)
+  deriving Repr, DecidableEq, Inhabited
+
+def FileStmt.lines : FileStmt → List Str
+  | .one s => [s.line]
+  | .cm h text => cmLines h text
+
+def FileStmt.apply (m : RMatrix) : FileStmt → RMatrix
+  | .one s => applyStmt m s
+  | .cm h text => applyItem m (.cm h text)
+
+def wfCmHead : CmHead → Bool
+  | .sg _ name => isIdent name
+  | .bo _ => true
+  | .bu name => isIdent name
+
+/-- Can the statement be read at this point of the file?  A comment over several lines is recognised as one only when the reader enters
+its follow-up state: for a signal comment the frame must be known, for a frame comment the number must denote an identifier, for an ECU
+comment the ECU must be listed (otherwise the first line is skipped and the further lines are read as statements of their own). -/
+def FileStmt.okIn (m : RMatrix) : FileStmt → Bool
+  | .one s => s.wf
+  | .cm h text =>
+    wfCmHead h && wfComment text &&
+    (!text.contains '\n' ||
+      match h with
+      | .sg id _ => (frameIdx m id).isSome
+      | .bo id => (keyOfCompound id).isSome
+      | .bu name => (ecuIdx m name).isSome)
+
+def writeFile (fs : List FileStmt) : List Str := fs.flatMap FileStmt.lines
+
+/-- every statement can be read at its point of the file -/
+def okFile (m : RMatrix) : List FileStmt → Bool
+  | [] => true
+  | f :: fs => f.okIn m && okFile (f.apply m) fs
+
 end CanVerif.Dbc
